@@ -812,12 +812,36 @@ fn c07_space(n: usize, alphabet: &'static [i64]) -> Space {
     })
 }
 
+/// order 5 with a bounded number of arcs
+fn c07_space5(alphabet: &'static [i64], max_arcs: usize) -> Space {
+    let total = pow(alphabet.len() as u64 + 1, 20);
+    Space::new("c07.bfm5", vec![alphabet.len() as u64, max_arcs as u64], total, format!("BellmanFordMoore::distances on every weighted digraph on 0..5 with weights from {alphabet:?} and ≤ {max_arcs} arcs, every source"), move |idx, ctx| {
+        // cheap pre-filter on the number of non-zero base-(k+1) digits
+        let b = alphabet.len() as u64 + 1;
+        let mut c = idx;
+        let mut arcs = 0;
+        for _ in 0..20 {
+            if c % b != 0 {
+                arcs += 1;
+            }
+            c /= b;
+        }
+        if arcs > max_arcs {
+            ctx.skip();
+            return;
+        }
+        let g = WG::from_code(5, idx, alphabet);
+        c07_case(&g, ctx);
+        ctx.sample(|| json!({"digraph": g.json(), "sources": "every vertex"}));
+    })
+}
+
 pub fn c07(tier: &str, seed: u64) -> Check {
     let thorough = tier == "thorough";
-    let mut spaces = vec![c07_space(1, &AM2), c07_space(2, &AM2), c07_space(3, &AM2), c07_space(4, &AM1P2)];
+    let mut spaces = vec![c07_space(1, &AM2), c07_space(2, &AM2), c07_space(3, &AM2), c07_space(4, &AM1P2), c07_space(4, &AM3)];
     if thorough {
-        spaces.push(c07_space(4, &AM3));
         spaces.push(c07_space(4, &AM4));
+        spaces.push(c07_space5(&AM1P2, 7));
     }
     let report = super::report(
         "C07",
@@ -847,9 +871,11 @@ fn c08_case(g: &WG, ctx: &mut Ctx) {
                 out[u][v] = m[(u, v)];
             }
         }
-        (out, m.order, m.dist.len(), m.infinity)
+        // the metrics of C18 on this very matrix (FloydWarshall outputs are part of C18's domain)
+        let metrics = (m.eccentricities().copied().collect::<Vec<isize>>(), *m.diameter(), m.center(), m.periphery().collect::<Vec<usize>>(), m.is_connected());
+        (out, m.order, m.dist.len(), m.infinity, metrics)
     });
-    let (m, order, len, inf) = match r {
+    let (m, order, len, inf, metrics) = match r {
         Ok(x) => x,
         Err(e) => {
             ctx.fail(format!("FloydWarshall panicked: {e}"), det());
@@ -910,6 +936,21 @@ fn c08_case(g: &WG, ctx: &mut Ctx) {
             }
         }
     }
+    // DistanceMatrix metrics on the Floyd-Warshall output against their definitions
+    {
+        ctx.execs_n(5);
+        let ecc: Vec<isize> = (0..g.n).map(|u| (0..g.n).map(|v| m[u][v]).max().unwrap()).collect();
+        let diam = *ecc.iter().max().unwrap();
+        let mine = *ecc.iter().min().unwrap();
+        let center: Vec<usize> = (0..g.n).filter(|&u| ecc[u] == mine).collect();
+        let periphery: Vec<usize> = (0..g.n).filter(|&u| ecc[u] == diam).collect();
+        let connected = ecc.iter().all(|&e| e != isize::MAX);
+        let want = (ecc, diam, center, periphery, connected);
+        if metrics != want {
+            ctx.fail(format!("DistanceMatrix metrics on the FloydWarshall output (eccentricities, diameter, center, periphery, is_connected) = {metrics:?}, definitions give {want:?}"), det());
+            return;
+        }
+    }
     // a pair whose shortest walk has ≥ 3 arcs (improved through ≥ 2 intermediates)
     for u in 0..g.n {
         for v in 0..g.n {
@@ -943,9 +984,8 @@ fn c08_space(n: usize, alphabet: &'static [i64]) -> Space {
 
 pub fn c08(tier: &str, seed: u64) -> Check {
     let thorough = tier == "thorough";
-    let mut spaces = vec![c08_space(1, &AM2), c08_space(2, &AM2), c08_space(3, &AM2), c08_space(4, &AM1P2)];
+    let mut spaces = vec![c08_space(1, &AM2), c08_space(2, &AM2), c08_space(3, &AM2), c08_space(4, &AM1P2), c08_space(4, &AM3)];
     if thorough {
-        spaces.push(c08_space(4, &AM3));
         spaces.push(c08_space(4, &AM4));
     }
     let report = super::report(
